@@ -76,6 +76,23 @@ func slotTag(slot int) string {
 	}
 }
 
+// slotTagBin: like slotTag, with a tag that is not ASCII (UTF-8 text or plain binary: Redis keys are byte strings).
+func slotTagBin(slot int, lead string) string {
+	slotTagsMu.Lock()
+	defer slotTagsMu.Unlock()
+	id := -1 - slot - 20000*len(lead)
+	if t, ok := slotTags[id]; ok {
+		return t
+	}
+	for n := 0; ; n++ {
+		t := lead + strconv.Itoa(n)
+		if refcrc.Slot([]byte(t)) == slot {
+			slotTags[id] = t
+			return t
+		}
+	}
+}
+
 func genC07file(rng *prng.R, c *c07case, tag string) ([]byte, []rdbgen.Record) {
 	f := &rdbgen.File{Version: 9}
 	ndb := len(c.DBs)
@@ -100,6 +117,10 @@ func genC07file(rng *prng.R, c *c07case, tag string) ([]byte, []rdbgen.Record) {
 		if c.Filter == "slots" {
 			// keys aimed at the first, the last and some middle slots (and their neighbours) through a hash tag
 			ks.Key = []byte(fmt.Sprintf("{%s}%s%d", slotTag(rng.Pick(0, 16383, 8000, 1, 16382, 7999)), tag, i))
+			if i%4 == 3 {
+				// ... and every fourth key through a tag in UTF-8 text or raw binary
+				ks.Key = []byte(fmt.Sprintf("{%s}%s%d", slotTagBin(rng.Pick(0, 16383, 8000, 1, 16382, 7999), rng.PickS("\xe7\x94\xa8\xe6\x88\xb7", "\xff\xfe")), tag, i))
+			}
 		}
 		if rng.Chance(1, 5) {
 			ks.ExpireMs = uint64(time.Now().UnixNano()/1e6) + 86400000*30
